@@ -355,9 +355,9 @@ package ro
 //@   ensures [closed-drops|C01,C10] atlock(status) != 0 ==> trace(call.NewNotificationComplete(), hook.OnDroppedNotification(ctx, _))
 
 //@ func (*unicastSubjectImpl).SubscribeWithContext
-//@   props C01 C03 C10 C13 C02 C05
+//@   props C01 C03 C10 C13 C02 C05 C20
 //@   binds subscriberCtx destination
-//@   ensures [one-critical-section|C05,C10,C13] count(lock.mu) == 1 && heldat(mu, sub.ANY) && heldat(mu, loop.ANY)
+//@   ensures [one-critical-section|C05,C10,C13,C20] count(lock.mu) == 1 && heldat(mu, sub.ANY) && heldat(mu, loop.ANY)
 //@   alias sub=NewSubscriber()
 //@   track call.NewSubscriber NewSubscriber().* loop.*
 //@   ensures [first-subscriber-gets-backlog-then-attached|C01,C02,C10] atlock(status) == 0 && atlock(observer) == nil ==> trace(call.NewSubscriber(destination), loop.L0, sub.Add(_)) && atunlock(observer) == res(call.NewSubscriber) && len(atunlock(values)) == 0
